@@ -101,6 +101,10 @@ pub struct Cfg {
     pub stickiness: u8,
     /// scheduler seed (THR, when no explicit schedule is given)
     pub sched_seed: u64,
+    /// THR: keep fjall's workers off the CPU for this many iterations of the Database drop
+    /// wait loop (a loaded machine): 0 = off
+    #[serde(default)]
+    pub starve_on_drop: u32,
 }
 
 #[derive(Serialize, Deserialize, Clone, Debug, PartialEq, Eq, Hash)]
